@@ -211,3 +211,15 @@ Example C01_regex_filter_example :
   forallb fstep_ok path = true /\ forallb (fstep_okp pf (fun _ => true)) path = true /\
   map snd (nav_allf pf rm doc path ([], doc)) = [VObj [("a", VStr "x")]]%string.
 Proof. cbv zeta. repeat split; vm_compute; reflexivity. Qed.
+
+(* `..` before a filter (FR): the filter applied to every container below and including the value, in pre-order *)
+Example C01_recursive_filter_example :
+  let pf := fun s : string => @None num in
+  let rm := fun _ _ : string => false in
+  let doc := VObj [("p", VArr [VObj [("a", VNum (num_of_Z 1))]; VObj [("b", VArr [VObj [("a", VNum (num_of_Z 2))]])]]); ("q", VObj [("a", VNum (num_of_Z 3))])]%string in
+  let path := [FR (FE [RPlain (SDot [97%N])])] in
+  fchain_path path = [36; 46; 46; 91; 63; 40; 64; 46; 97; 41; 93]%N /\
+  forallb fstep_ok path = true /\
+  map snd (nav_allf pf rm doc path ([], doc)) =
+    [VObj [("a", VNum (num_of_Z 3))]; VObj [("a", VNum (num_of_Z 1))]; VObj [("a", VNum (num_of_Z 2))]]%string.
+Proof. cbv zeta. split; [vm_compute; reflexivity|]. split; vm_compute; reflexivity. Qed.
